@@ -18,9 +18,16 @@
   c05vtpidx <list sizes>                                 → model=<ranges>
   c05b64d <bytes> → model=<bytes|E>      c05b64e <bytes> → model=<bytes>
   c05encb <n>     → b64=<n> raw=<n>
-  c05ascw <signed 0|1> <sz> <bytes items-LE>             → toks=<int,…> model=<bytes> (asciiRead of the tokens)
-  c05ascr <sz> <list int tokens>                         → model=<bytes>
+  c05vtpw <k> { <type> <list rows> } <m> { <nrows> <bytes row>… }        (row := <list nat>)
+          → arrs=<t>:<count>:<conn>:<offs>|… spec=<layout> model=<layout> cdspec=… cdmodel=…
+  c05vtpl <k> { <type> <count> <list conn> <list offs> } <m> { <nrows> <bytes row>… }
+          → model=<layout> cd=<…|E>
+  c05ascw <le|be> <signed 0|1> <sz> <bytes items-LE>     → toks=<int,…> model=<bytes> (asciiItems of the tokens)
+  c05ascr <le|be> <sz> <list int tokens>                 → model=<bytes>            (asciiItems)
+  c05ascx <usesBo 0|1> <le|be> <sz> <list int tokens>    → model=<bytes>            (asciiItemsWith)
   c05fallback <bytes file-content>                       → model=<bytes appendix|E> enc=<bytes encoding name|->
+  c05rawfile <pre> <a1> <a2> <enc> <a3> <ws> <appendix> <post>   (all bytes)
+          → head=<0|1> app=<0|1> content=<bytes> model=<bytes|E> enc=<bytes|-> spec=<bytes> specenc=<bytes>
   layout := t:row;row;…:i.j.k|…     row := i.j.k  (`-` = empty)
 -/
 import Driver.Proto
@@ -185,17 +192,62 @@ def opEncB : P String := do
 def showInts (l : List Int) : String := if l.isEmpty then "-" else sepBy "," (l.map toString)
 
 def opAscW : P String := do
+  let bo ← pBo
   let signed ← pBool
   let sz ← pNat
   let b ← pBytes
   if sz = 0 then failure
   let toks := Spec.asciiTokens signed sz b
-  pure s!"toks={showInts toks} model={showBytes (asciiRead sz toks)}"
+  pure s!"toks={showInts toks} model={showBytes (asciiItems bo sz toks)}"
 
 def opAscR : P String := do
+  let bo ← pBo
   let sz ← pNat
   let toks ← pList pInt
-  pure s!"model={showBytes (asciiRead sz toks)}"
+  pure s!"model={showBytes (asciiItems bo sz toks)}"
+
+def opAscX : P String := do
+  let uses ← pBool
+  let bo ← pBo
+  let sz ← pNat
+  let toks ← pList pInt
+  pure s!"model={showBytes (asciiItemsWith uses bo sz toks)}"
+
+def opVtpW : P String := do
+  let secs ← pList (do let t ← pNat; let rows ← pList (pList pNat); pure (t, rows))
+  let cds ← pCellData
+  let arrs := Spec.vtpArrays secs
+  let spec := Spec.vtpContent secs
+  let model := vtpLayout arrs
+  let cdspec := cds.map (fun rows => some (Spec.vtpCellDataContent secs rows))
+  let cdmodel := cds.map (fun rows => splitCellData rows model)
+  let sa := if arrs.isEmpty then "-" else
+    sepBy "|" (arrs.map (fun (t, n, conn, offs) => s!"{t}:{n}:{showNats conn}:{showNats offs}"))
+  pure s!"arrs={sa} spec={showLayout spec} model={showLayout model} cdspec={showCds cdspec} cdmodel={showCds cdmodel}"
+
+def opVtpL : P String := do
+  let secs ← pList (do let t ← pNat; let n ← pNat; let conn ← pList pNat; let offs ← pList pNat; pure (t, n, conn, offs))
+  let cds ← pCellData
+  let model := vtpLayout secs
+  let cdmodel := cds.map (fun rows => splitCellData rows model)
+  pure s!"model={showLayout model} cd={showCds cdmodel}"
+
+def opRawFile : P String := do
+  let pre ← pBytes
+  let a1 ← pBytes
+  let a2 ← pBytes
+  let enc ← pBytes
+  let a3 ← pBytes
+  let ws ← pBytes
+  let appendix ← pBytes
+  let post ← pBytes
+  let f : Spec.RawFile := ⟨pre, a1, a2, enc, a3, ws, appendix, post⟩
+  let hd := if decide f.HeadOk then 1 else 0
+  let ap := if decide f.AppendixOk then 1 else 0
+  let m := match fallbackAppendix f.content with
+    | some (app, e) => s!"model={showBytes app} enc={showBytes e}"
+    | none => "model=E enc=-"
+  pure s!"head={hd} app={ap} content={showBytes f.content} {m} spec={showBytes f.appendix} specenc={showBytes f.enc}"
 
 def opFallback : P String := do
   let content ← pBytes
@@ -217,6 +269,10 @@ def handleC05 (op : String) : Option (P String) :=
   | "c05encb" => some opEncB
   | "c05ascw" => some opAscW
   | "c05ascr" => some opAscR
+  | "c05ascx" => some opAscX
+  | "c05vtpw" => some opVtpW
+  | "c05vtpl" => some opVtpL
+  | "c05rawfile" => some opRawFile
   | "c05fallback" => some opFallback
   | _ => none
 
